@@ -131,6 +131,11 @@ class Sim(object):
         self.state_fn = None
         # virtual time that passes with every network delivery step (0 = instantaneous network)
         self.deliver_latency_ns = 0
+        # what a datagram network may legitimately do (off by default): deliver out of order, deliver a datagram twice
+        self.udp_reorder = False
+        self.udp_dup = 0.0
+        self.udp_dups_made = 0
+        self.udp_reorders_made = 0
         install_clock()
 
     # -- helpers
@@ -257,7 +262,7 @@ class Sim(object):
                 for pipe in pipes:
                     pipe.deliver(self._deliver_amount(pipe))
                 if udp:
-                    self.net.udp_deliver_one(0)
+                    self._udp_deliver()
                 # the one-way delay passes; timers that come due on the way fire at their own time, not at the end of the tick
                 target = self.world.now_ns + self.deliver_latency_ns
                 for _guard in range(1000):
@@ -275,7 +280,7 @@ class Sim(object):
                         break
                 self.world.advance_to(target)
             elif udp and (not pipes or rng.random() < 0.5):
-                self.net.udp_deliver_one(0)
+                self._udp_deliver()
             else:
                 pipe = pipes[0] if self.policy in ('eager', 'rr') else rng.choice(pipes)
                 pipe.deliver(self._deliver_amount(pipe))
@@ -286,6 +291,22 @@ class Sim(object):
         node.iteration()
         self._note_state()
         return 'iter'
+
+    def _udp_deliver(self):
+        ''' One datagram reaches its destination: the oldest one, or (udp_reorder) any one in flight; with probability
+        udp_dup a copy of it stays in flight as well. '''
+        inflight = self.net.udp_inflight
+        if not inflight:
+            return 0
+        index = 0
+        if self.udp_reorder and len(inflight) > 1 and self.rng.random() < 0.5:
+            index = self.rng.randrange(len(inflight))
+            if index:
+                self.udp_reorders_made += 1
+        if self.udp_dup and self.rng.random() < self.udp_dup and not inflight[index].get('is_dup'):
+            inflight.append(dict(inflight[index], is_dup=True))
+            self.udp_dups_made += 1
+        return self.net.udp_deliver_one(index)
 
     def _latency_spin(self):
         ''' True when only idle sources are ready and they have stopped changing anything (so waiting for them is pointless). '''
